@@ -6,7 +6,7 @@ import time
 import traceback
 
 from mir import (AnchorError, Guard, GuardIndex, Program, Sym, expr_str, expr_walk, fmt_guards,
-                 is_tracing, mentions, mentions_call, mentions_field, mentions_name, short)
+                 is_tracing, mentions, mentions_call, mentions_const, mentions_constdef, mentions_field, mentions_name, short)
 
 VERIF = os.path.dirname(os.path.dirname(os.path.abspath(__file__)))
 
@@ -1013,3 +1013,47 @@ def only_via_arms(ctx, body, block, pred):
     gi = ctx.gi(body)
     edges = [g.edge for g in gi.all_guards() if not is_tracing(g.macros) and pred(g)]
     return bool(edges) and block not in body.reachable(0, removed_edges=edges)
+
+
+def app_sequence_wrap(ctx):
+    """The application-layer sequence number is a 4-bit counter: MAX_VALUE = 15, new() masks with it, calc_next wraps 15 -> 0 and adds
+    one otherwise, next() / increment() are calc_next of the stored value (increment returns the old value). Used by the OPERATE
+    'next sequence number' test (C04), the fragment series numbering of both endpoints (C11, C12, C15)."""
+    prog = ctx.prog
+    P = "app::sequence::Sequence::"
+    mx = prog.const("app::sequence::Sequence::MAX_VALUE")
+    ctx.check(mx.get("v") == 15, "app-seq:MAX_VALUE", "Sequence::MAX_VALUE = %s" % mx.get("v"))
+    ismax = lambda x: mentions_constdef(x, r"sequence::Sequence::MAX_VALUE$") or const_value(prog, x) == 15
+    nb = prog.body(P + "new")
+    e = [x for _, _, _, x in ret_sites(nb, ctx.sym(nb))]
+    ok = bool(e) and all(mentions(x, lambda s: s[0] == "bin" and s[1] == "BitAnd") and ismax_in(prog, x) for x in e)
+    ctx.check(ok, "app-seq:new:mask", "new(x) = x & MAX_VALUE", nb.where(line=nb.line))
+    cb = prog.body(P + "calc_next")
+    cs = ctx.sym(cb)
+    kinds = set()
+    for b, si, st, e in ret_sites(cb, cs):
+        if const_value(prog, e) == 0:
+            kinds.add("wrap")
+            ctx.require_guards(cb, b.idx, [("value == MAX_VALUE", g_rel("Eq", "value", ismax))], "app-seq:calc_next:wrap", "wrap to 0")
+        else:
+            kinds.add("+1")
+            ok = mentions(e, lambda s: s[0] == "bin" and s[1] in ("Add", "AddWithOverflow")) and mentions_const(e, 1) and not mentions(e, lambda s: s[0] == "bin" and s[1] in ("Rem", "BitAnd", "Sub", "SubWithOverflow"))
+            ctx.check(ok, "app-seq:calc_next:+1", "value + 1 otherwise (%s)" % expr_str(e)[:60], cb.where(b.idx))
+            ctx.require_guards(cb, b.idx, [("value != MAX_VALUE", g_rel("Ne", "value", ismax))], "app-seq:calc_next:+1", "value + 1")
+    ctx.check(kinds == {"wrap", "+1"}, "app-seq:calc_next:arms", "calc_next has the wrap and the +1 arm (%s)" % sorted(kinds), cb.where(line=cb.line))
+    for fn_ in ("next", "increment"):
+        xb = prog.body(P + fn_)
+        cs_ = call_sites(xb, r"sequence::Sequence::calc_next$")
+        ok = len(cs_) == 1 and ctx.sym(xb).call_expr(cs_[0].term)[2][0] == ("field", ("param", "self"), "value")
+        ctx.check(ok, "app-seq:%s" % fn_, "%s = calc_next(self.value)" % fn_, xb.where(line=xb.line))
+    xb = prog.body(P + "next")
+    e = [x for _, _, _, x in ret_sites(xb, ctx.sym(xb))]
+    ctx.check(bool(e) and all(x[0] == "call" and (x[1] or "").endswith("Sequence::calc_next") for x in e), "app-seq:next:returns", "next() returns calc_next(..) unchanged", xb.where(line=xb.line))
+    ib = prog.body(P + "increment")
+    ws = field_writes(ib, "value")
+    ok = len(ws) == 1 and mentions_call(ctx.sym(ib).rvalue_expr(ws[0][2].rv), r"sequence::Sequence::calc_next$")
+    ctx.check(ok, "app-seq:increment:stores", "increment stores calc_next(value)", ib.where(line=ib.line))
+
+
+def ismax_in(prog, x):
+    return mentions_constdef(x, r"sequence::Sequence::MAX_VALUE$") or mentions_const(x, 15)
